@@ -16,3 +16,24 @@ PROPS["C13"] = {
     "trusted_base": TB_COMMON + ["modelled not verified: sequential semantics of sync/atomic (CAS always succeeds), encoding/json round-trip of the counter struct, time.Time arithmetic without saturation"],
     "assumptions": ["NumBuckets >= 0 and BucketWidth > 0 (constructor precondition; width 0 divides by zero in Go)"],
 }
+
+PROPS["C16"] = {
+    "components": [Seq("tc", 2000, 100000)],
+    "rule": "tc: random op sequences (SleepStart/Check/SetSleepDuration/SetEventCountToAllow/callback firings incl. stale and repeated/dump) with "
+            "timestamps around nextOpenTime, behind and ahead; non-trivial = at least one callback firing AND one check at the boundary or with an older timestamp; distinct by FNV hash",
+    "trusted_base": TB_COMMON + ["modelled not verified: sync.RWMutex mutual exclusion (sequential part), timer callbacks as explicit environment steps (injected TimeAfterFunc)"],
+    "assumptions": ["timestamps stay far from the zero time.Time and from int64 overflow"],
+}
+
+def sig_c15(spec):
+    """known-finding signature from the monitor's message: the overflow class is declared by the Lean monitor
+    (exact sum / max-min outside int64), everything else is unlisted"""
+    return "F-C15-overflow" if spec.startswith("!overflow:") else None
+
+PROPS["C15"] = {
+    "components": [Seq("rp", 1500, 50000), Seq("sd", 1500, 100000, signature=sig_c15)],
+    "rule": "rp: random AddDuration/SnapshotAt/Reset sequences with boundary-directed timestamps and bucket capacities 0..5 (overflowing); non-trivial = window rolled AND (a bucket overflowed OR a backwards/stale/pre-start time). "
+            "sd: independent Percentile/Mean/Min/Max/Var queries on sorted samples, p as raw binary64 bits (fixed, uniform, +-ulp neighbours of integral indices, extremes, random bits); non-trivial = not a fixed-p-only case. distinct by FNV hash",
+    "trusted_base": TB_COMMON + ["modelled not verified: IEEE-754 binary64 round-to-nearest-even as exact rationals (CircuitModel/F64.lean, compared bit-for-bit with Go on every run through the sd suite), no FMA contraction on amd64, sort.Slice sorts, expvar/time.ParseDuration round-trip of duration strings"],
+    "assumptions": ["p is not NaN (Go's int(NaN) is unspecified)", "percentile/mean bounds are claimed for samples whose exact sum and max-min stay inside int64 (outside: finding F-C15-overflow)"],
+}
